@@ -284,10 +284,11 @@ POLICY_TAGS = ("P", "E=org.freedesktop.DBus.Error.AccessDenied")
 
 
 def only_policy_difference(a, b):
-    """do two per-operation observation strings differ only in deliveries of the probe / AccessDenied errors?"""
+    """is the difference between two per-operation observations a difference in policy decisions: some delivery of the probe
+    or some AccessDenied error is on one side only, and nothing unexplained (X=...) is involved?"""
     sa, sb = set(a.split(",")), set(b.split(","))
-    diff = (sa ^ sb) - {"."}
-    return bool(diff) and all(d.split(":", 1)[1] in POLICY_TAGS for d in diff if ":" in d)
+    diff = [d.split(":", 1)[1] for d in (sa ^ sb) - {"."} if ":" in d]
+    return any(d in POLICY_TAGS for d in diff) and not any(d.startswith("X=") for d in diff)
 
 
 def check_e2e(rep, known, scns, info, stats):
